@@ -13,7 +13,7 @@ def collection_chain(ctx, v, depth=0):
     P = ctx.P
     helpers = []
     ads_all = []
-    while depth < 5:
+    while depth < 12:
         depth += 1
         # strip Try / Ok wrappers
         while v[0] == "proj":
@@ -59,11 +59,27 @@ def collection_chain(ctx, v, depth=0):
                 rv = rv[3][0][1]
             v = rv
             continue
+        if v[0] == "param" and any(f.path == v[1] for f, _ in helpers):
+            # the helper iterates one of its own parameters (`fn humanize(api, records: impl Iterator<..>)`): continue in the caller
+            cvs = [cv_ for f, cv_ in helpers if f.path == v[1]]
+            if v[2] < len(cvs[-1][4]):
+                v = cvs[-1][4][v[2]]
+                continue
+        if v[0] == "call" and isinstance(v[3], str) and re.search(r"Map::(range|range_raw|keys|keys_raw|prefix)$", generic_path(v[3])):
+            return ads_all, ("scan", v), helpers
+        if v[0] == "call" and isinstance(v[3], str) and "Iterator" in v[3] and common.last_seg(v[3]) in BOUNDING | {"map", "rev", "enumerate", "into_iter", "iter"}:
+            ads, kind, src = common.iter_chain(v)
+            ads_all += [(a, av) for a, av in ads]
+            if kind == "range" or (src[0] == "call" and isinstance(src[3], str) and re.search(r"Map::(range|range_raw|keys|keys_raw|prefix)$", generic_path(src[3]))):
+                return ads_all, ("scan", src), helpers
+            if src != v:
+                v = src
+                continue
         return ads_all, ("unknown", v), helpers
     return ads_all, ("unknown", v), helpers
 
 
-def run(ctx):
+def _run(ctx):
     P = ctx.P
     r1 = ctx.inst("C17.R1", "the decimals handler walks the WHOLE registry: its loop iterates a collection collected from an unbounded PAIRS scan (no take/skip/filter), through helpers", floor=2)
     r2 = ctx.inst("C17.R2", "the page-limited reader is used only by the Pairs query", floor=1)
@@ -581,3 +597,11 @@ def allow_list_reader_strict(ctx, inst):
                     inst.site("%s answers exactly the stored entry; absent entry => Err (%s)" % (f.path, op))
     if n == 0:
         inst.fail("%s:reader-anchor" % inst.id, "-", "-", "anchor-missing: native-decimals query reading the allow-list under the plain denom bytes")
+
+
+def run(ctx):
+    from .. import compose
+    from . import c14
+    _run(ctx)
+    r6 = ctx.inst("C17.R6", "the pair's stored decimals change only on the factory's message: the pair-side handler is factory-only (shared with C14.R6) — otherwise anyone can make the pair's self-description diverge from the factory record", floor=1)
+    compose.pull(ctx, r6, c14, {"C14.R6"}, "C17.R6")
